@@ -36,6 +36,19 @@ THEOREMS = {
     ],
 }
 
+TIE_MODULE = "Cstl.SList.Tie"
+TIE_THEOREMS = [
+    "Cstl.SList.Tie.insertAfter_tie",
+    "Cstl.SList.Tie.eraseAfter_tie",
+    "Cstl.SList.Tie.insert_after_public_tie",
+    "Cstl.SList.Tie.pushFront_tie",
+    "Cstl.SList.Tie.pushBack_tie",
+    "Cstl.SList.Tie.popFront_tie",
+    "Cstl.SList.Tie.front_tie",
+    "Cstl.SList.Tie.back_tie",
+    "Cstl.SList.Tie.concat_tie",
+]
+
 NLISTS = 3
 
 
